@@ -137,6 +137,15 @@ pub fn install() {
                 }
             }
             if QUIET_PANICS.with(|f| f.get()) {
+                let msg = if let Some(s) = info.payload().downcast_ref::<&str>() {
+                    s.to_string()
+                } else if let Some(s) = info.payload().downcast_ref::<String>() {
+                    s.clone()
+                } else {
+                    "panic".to_string()
+                };
+                let loc = info.location().map(|l| format!(" at {}:{}", l.file(), l.line())).unwrap_or_default();
+                LAST_PANIC.with(|p| *p.borrow_mut() = format!("{msg}{loc}"));
                 return;
             }
             prev(info)
@@ -147,8 +156,19 @@ pub fn install() {
 thread_local! {
     static IN_ENTRYPOINT: std::cell::Cell<bool> = const { std::cell::Cell::new(false) };
     static QUIET_PANICS: std::cell::Cell<bool> = const { std::cell::Cell::new(false) };
+    static LAST_PANIC: RefCell<String> = const { RefCell::new(String::new()) };
     static REPLY_TX: RefCell<Option<std::sync::mpsc::Sender<Reply>>> = const { RefCell::new(None) };
     static EXECUTOR: RefCell<Option<Executor>> = const { RefCell::new(None) };
+}
+
+/// Call program code directly (outside the entrypoint) and turn a panic into an error value carrying the message and
+/// location: on-chain a panic aborts the transaction, i.e. the call failed.
+pub fn try_call<T>(f: impl FnOnce() -> T) -> Result<T, String> {
+    install();
+    let was = QUIET_PANICS.with(|q| q.replace(true));
+    let r = std::panic::catch_unwind(std::panic::AssertUnwindSafe(f));
+    QUIET_PANICS.with(|q| q.set(was));
+    r.map_err(|_| LAST_PANIC.with(|p| format!("panic: {}", p.borrow())))
 }
 
 /// silence the default panic message on this thread (used around code whose panics are expected and caught)
